@@ -472,6 +472,12 @@ type cb struct {
 func checkC10(an *Analysis, add func(Violation)) {
 	listenerCheck(an, "C10", nil, add)
 	leaks(an, "C10", add)
+	if an.Res.Races > 0 {
+		// between two kernel hooks the simulator cannot interleave the receive loop and the dispatcher;
+		// the race detector (running under the scheduler) covers that gap: a race on the way from the
+		// receive buffer to the callback means a delivered status is not reliably the datagram's decoding
+		add(Violation{Code: "race", Sig: "C10:race:" + an.Res.RaceSig, Detail: "the race detector reported a data race on the listener's path from datagram to callback:\n" + an.Res.RaceLog})
+	}
 }
 
 // listenerCheck compares the callbacks of every listener with the reference reading of what its
